@@ -477,7 +477,9 @@ def minimize_lbfgsb(
             G,
             maxcor,
             mats,
-            is_force_update=False,
+            # the matrices must be built from the restored (and possibly rewritten)
+            # history even if the current point is rejected by the curvature test
+            is_force_update=len(X) > 1,
             eps=eps_SY,
             is_check_factorization=is_check_factorization,
         )
@@ -609,6 +611,9 @@ def minimize_lbfgsb(
                 elif is_f0_min_change_reached(f0, f0_old, ftol, istate):
                     break  # the while loop
 
+            if update_fun_def is not None and len(X) == 1:
+                # the rewritten history collapsed to its newest point: no pair is left
+                mats = LBFGSB_MATRICES(n)
             mats = update_lbfgs_matrices(
                 x.copy(),  # copy otherwise x might be changed in X when updated
                 grad,
@@ -616,7 +621,9 @@ def minimize_lbfgsb(
                 G,
                 maxcor,
                 mats,
-                is_force_update=False,
+                # the history may have been rewritten by update_fun_def: the matrices
+                # must then be rebuilt from it even if the new pair is rejected
+                is_force_update=update_fun_def is not None and len(X) > 1,
                 eps=eps_SY,
                 is_check_factorization=is_check_factorization,
             )
